@@ -155,7 +155,9 @@ func (g *Gen) ifaceEq(x, y Val) string {
 		return eq(app("i_tag", o.S), "0")
 	}
 	// pointer-shaped dynamic types compare by identity; boxed values by content (not modelled precisely)
-	r := g.freshConst("ifeq", "Bool")
+	// iface.eq is a function of its operands, so the same comparison in code and in a contract is the same term
+	g.declFun("iface.eq", []string{"Iface", "Iface"}, "Bool")
+	r := app("iface.eq", x.S, y.S)
 	g.declFun("ptrshaped!tag", []string{"Int"}, "Bool")
 	g.assume(implies(eq(x.S, y.S), r))
 	g.assume(implies(not(eq(app("i_tag", x.S), app("i_tag", y.S))), not(r)))
